@@ -79,6 +79,10 @@ def static_decide(cond):
     return None
 
 
+def strip_ptr(t):
+    return t.replace("const", "").strip().endswith("*")
+
+
 class LoopMachine:
     MAX_STATES = 32
     MAX_PATHS = 64
@@ -146,34 +150,56 @@ class LoopMachine:
                "pre": effects before the loop}"""
         node = self.loop
         ex0, _, pre = self._fresh([])
-        carried = self._carried(ex0)
-        primary = None
-        if node.get("k") == "for":
-            inc_ids, _ = assigned_ids([node.get("inc")])
-            cond_ids = {n.get("id") for n in walk(node.get("c")) if n.get("k") == "ref"}
-            cand = [i for i in inc_ids if i in cond_ids]
-            if len(cand) == 1:
-                primary = cand[0]
         name = None
 
-        def enter(prefix, state):
-            ex, hooks, _ = self._fresh([])
-            hooks.prefix = list(prefix)
-            hooks.asked = []
+        def run_init(ex):
             if node.get("k") == "for" and node.get("init") is not None:
                 init = node["init"]
                 if init.get("k") == "decl":
                     ex.block(init, [])
                 else:
                     ex.ev(init, [], stmt=True)
+
+        def inc_parts():
+            parts = []
+
+            def fl(nd):
+                if isinstance(nd, dict) and nd.get("k") == "bin" and nd.get("op") == ",":
+                    fl(nd["a"]); fl(nd["b"])
+                elif nd is not None:
+                    parts.append(nd)
+            fl(node.get("inc") if node.get("k") == "for" else None)
+            return parts
+        # variables that advance by a loop-invariant amount per iteration (the counter, walking pointers) are closed forms
+        # of the iteration number K and are not part of the carried state
+        exd, _, _ = self._fresh([])
+        run_init(exd)
+        derived = exd.detect_derived(node.get("body"), inc_parts(), None, None)
+        derived = {i: kd for i, kd in derived.items() if kd[0] == "add"}
+        entry = {i: exd.env[i] for i in derived}
+        ptrs = {}
+        for n_ in walk([node.get("body"), node.get("inc"), node.get("c")]):
+            if n_.get("k") == "ref" and n_.get("id") in derived:
+                ptrs[n_["id"]] = strip_ptr(n_.get("t", ""))
+        K = sym.sym("k@%d" % node["l"])
+
+        def bind(ex, count):
+            for i, (kind, d) in derived.items():
+                off = sym.mul(d, count)
+                ex.env[i] = sym.padd(entry[i], off) if ptrs.get(i) else sym.add(entry[i], off)
+
+        def enter(prefix, state):
+            ex, hooks, _ = self._fresh([])
+            hooks.prefix = list(prefix)
+            hooks.asked = []
+            run_init(ex)
             if state is not None:
                 self._install(ex, state)
             return ex, hooks
         ex1, _ = enter([], None)
-        ivar = None
-        if primary is not None:
-            ivar = sym.sym("%s@%d" % (ex1._name_of(primary), node["l"]))
-        skip = (primary,) if primary is not None else ()
+        ivar = K if derived else None
+        primary = None
+        skip = tuple(derived)
         init_state = self._state_of(ex1, [i for i in self._carried(ex1)], skip)
         carried = [i for i in self._carried(ex1) if i not in skip]
         states, steps, work = [init_state], [], [init_state]
@@ -182,8 +208,7 @@ class LoopMachine:
 
             def run(prefix, s=s):
                 ex, hooks = enter(prefix, s)
-                if primary is not None:
-                    ex.env[primary] = ivar
+                bind(ex, K)
                 out = []
                 st = ex.block(node.get("body"), out)
                 if st in ("fall", "continue") and node.get("k") == "for" and node.get("inc") is not None:
@@ -201,8 +226,7 @@ class LoopMachine:
         for s in states:
             def run(prefix, s=s):
                 ex, hooks = enter(prefix, s)
-                if primary is not None:
-                    ex.env[primary] = ("var", "after-loop", primary)
+                bind(ex, sym.sym("k-after-loop@%d" % node["l"]))
                 out = []
                 st = "fall"
                 for stmt in self.post:
